@@ -1,53 +1,77 @@
-(* C11 driver: appended after c11_model.ml and proto.ml.  Keeps one routing table as state. *)
+(* C11 driver: appended after c11_model.ml and proto.ml.  Keeps one system (routing table, peer manager, clock). *)
 let st_own : n ref = ref N0
 let st_rp : bool ref = ref true
-let st_tab : bucket list ref = ref init
+let st : sys ref = ref sys_init
 
 let jpeer j = { pid = jn (jfield j "id"); paddr = jn (jfield j "addr"); pport = jn (jfield j "port") }
+let jkey j = (jn (jfield j "addr"), jn (jfield j "port"))
 let of_peer p = JArr [of_n p.pid; of_n p.paddr; of_n p.pport]
 let of_bucket b = JObj [("lo", of_n b.blo); ("hi", of_n b.bhi); ("peers", of_list of_peer b.bpeers)]
 let of_table t = of_list of_bucket t
 let key_of p = string_of_n p.paddr ^ ":" ^ string_of_n p.pport
 let keyset j = let h = Stdlib.Hashtbl.create 16 in
   SL.iter (fun k -> Stdlib.Hashtbl.replace h (jstr k) ()) (jlist j); h
+let probe_of req = let d = keyset (jfield req "dead") in fun p -> not (Stdlib.Hashtbl.mem d (key_of p))
 let jenv req =
-  let g = keyset (jfield req "good") and s = keyset (jfield req "stale")
-  and f = keyset (jfield req "fresh") and d = keyset (jfield req "dead") in
+  let g = keyset (jfield req "good") and s = keyset (jfield req "stale") and f = keyset (jfield req "fresh") in
   { good = (fun p -> Stdlib.Hashtbl.mem g (key_of p));
     lrs = (fun p -> if Stdlib.Hashtbl.mem s (key_of p) then Stale
                     else if Stdlib.Hashtbl.mem f (key_of p) then Fresh else Edge);
-    probe = (fun p -> not (Stdlib.Hashtbl.mem d (key_of p))) }
+    probe = probe_of req }
 let of_res r = match r with
   | Ret true -> JStr "True" | Ret false -> JStr "False" | ErrIndex -> JStr "IndexError" | ErrFuel -> JStr "OutOfFuel"
-let of_out o = match o with
-  | OAdd (r, pr) -> JObj [("ret", of_res r); ("probed", of_list of_peer pr)]
-  | ORemove ok -> JObj [("ret", JStr (if ok then "None" else "IndexError")); ("probed", JArr [])]
+let out_fields o = match o with
+  | OAdd (r, pr) -> [("ret", of_res r); ("probed", of_list of_peer pr)]
+  | ORemove ok -> [("ret", JStr (if ok then "None" else "IndexError")); ("probed", JArr [])]
+let set_tab t = st := { s_tab = t; s_pm = !st.s_pm; s_now = !st.s_now }
+(* a table operation with an explicitly given environment *)
 let do_step o =
-  let (t', x) = step !st_rp !st_own !st_tab o in
-  st_tab := t';
-  match of_out x with
-  | JObj l -> JObj (l @ [("table", of_table t')])
-  | j -> j
+  let (t', x) = step !st_rp !st_own !st.s_tab o in
+  set_tab t';
+  JObj (out_fields x @ [("table", of_table t')])
+(* the model's own reading of the peer manager for every contact of the table *)
+let facts () =
+  let cs = contacts !st.s_tab in
+  let e = env_of_pm !st.s_pm !st.s_now (fun _ -> true) in
+  let sel f = JArr (SL.map (fun p -> JStr (key_of p)) (SL.filter f cs)) in
+  [("good", sel (fun p -> e.good p)); ("stale", sel (fun p -> e.lrs p = Stale)); ("fresh", sel (fun p -> e.lrs p = Fresh))]
+let do_sys o =
+  let fs = facts () in
+  let (s', x) = sys_step !st_rp !st_own !st o in
+  st := s';
+  match x with
+  | Some x -> JObj (out_fields x @ [("table", of_table s'.s_tab); ("facts", JObj fs)])
+  | None -> JNull
+let of_tri g = match g with GTrue -> JStr "True" | GFalse -> JStr "False" | GNone -> JStr "None"
 
 let () = serve (fun fn req ->
   match fn with
-  | "reset" -> st_own := jn (jfield req "own"); st_rp := jbool (jfield req "rp"); st_tab := init; of_table !st_tab
+  | "reset" -> st_own := jn (jfield req "own"); st_rp := jbool (jfield req "rp"); st := sys_init; of_table !st.s_tab
   | "add" -> do_step (Add (jpeer req, jenv req))
   | "add_noid" -> do_step AddNoId
   | "remove" -> do_step (Remove (jpeer req))
   | "remove_noid" -> do_step RemoveNoId
+  | "tick" -> do_sys (STick (jn (jfield req "dt")))
+  | "replied" -> do_sys (SReplied (jkey req))
+  | "failure" -> do_sys (SFailure (jkey req))
+  | "requested" -> do_sys (SRequested (jkey req))
+  | "sadd" -> do_sys (SAdd (jpeer req, probe_of req))
+  | "pm_query" ->
+      let k = jkey req in
+      JObj [("good", of_tri (triple_is_good !st.s_pm !st.s_now k));
+            ("lr", JStr (match lr_of !st.s_pm !st.s_now k with Stale -> "Stale" | Edge -> "Edge" | Fresh -> "Fresh"))]
   | "add_fuel" ->
-      let ((r, pr), t') = add_peer !st_rp !st_own (jenv req) (jnat (jfield req "fuel")) !st_tab (jpeer req) in
+      let ((r, pr), t') = add_peer !st_rp !st_own (jenv req) (jnat (jfield req "fuel")) !st.s_tab (jpeer req) in
       JObj [("ret", of_res r); ("probed", of_list of_peer pr); ("table", of_table t')]
   | "find_close" ->
       let sender = match jfield_opt req "sender" with Some JNull | None -> None | Some j -> Some (jn j) in
-      of_list of_peer (find_close !st_own !st_tab (jn (jfield req "key")) (jz (jfield req "count")) sender)
+      of_list of_peer (find_close !st_own !st.s_tab (jn (jfield req "key")) (jz (jfield req "count")) sender)
   | "get_peer" ->
-      (match get_peer !st_own !st_tab (jn (jfield req "id")) with
+      (match get_peer !st_own !st.s_tab (jn (jfield req "id")) with
        | None -> JStr "IndexError"
        | Some None -> JNull
        | Some (Some p) -> of_peer p)
   | "should_split" ->
-      of_bool (should_split !st_own (jnat (jfield req "index")) !st_tab (jn (jfield req "id")))
-  | "table" -> of_table !st_tab
+      of_bool (should_split !st_own (jnat (jfield req "index")) !st.s_tab (jn (jfield req "id")))
+  | "table" -> of_table !st.s_tab
   | _ -> raise (Model_error ("unknown fn " ^ fn)))
